@@ -198,6 +198,7 @@ func main() {
 			fmt.Fprintf(os.Stderr, "%s: paths=%d ok=%d findings=%d queries=%d solver=%.1fs wall=%.1fs\n", e, st.Paths, st.PathsOK, len(res.Findings), st.Queries, st.SolverS, res.WallS)
 		}
 	}
+	interp.DumpForkSites()
 	data, _ := json.MarshalIndent(results, "", " ")
 	if *out != "" {
 		if err := os.WriteFile(*out, data, 0o644); err != nil {
